@@ -20,7 +20,7 @@ EXPLANATION = (
     "(b) initiator mismatch decided by `id != _sid`, acceptor mismatch by `_sci() != tci()`; under _enforce_compids each leads on "
     "every path to stop(), state terminated, return false, with no Session::send reachable; (c) client-list miss and failed "
     "authenticate likewise; (d) reset flag => both counters := 1 else recover_seqnums, before the answer is sent; (e) the answer "
-    "Logon's HeartBtInt argument is the field read from the inbound message. NOT decided: behaviour for concrete CompID strings.")
+    "Logon's HeartBtInt argument is the field read from the inbound message. R23.3 an acceptor's atomic_init precedes _connection->start() and does not follow it; R23.4 SessionConfig passes each configuration getter in the position of the LoginParameters constructor parameter that initialises the corresponding member. NOT decided: behaviour for concrete CompID strings.")
 
 S = 'FIX8::Session::'
 SID = 'FIX8::SessionID::'
@@ -237,6 +237,86 @@ def run(ctx):
             p = cfg.path(q.atom_edge(cfg, br2, False)[0], lambda x: x == gv, avoid=recs)
             ctx.check(p is None and bool(recs), 'R23.2', S + 'handle_logon#noreset.recover', br2[1].loc,
                       'no reset flag: recover_seqnums on every path to the Logon answer')
+    # ---------------- R23.3 an acceptor initialises its state and counters BEFORE its reader thread is started (a Logon handled while start() is still
+    # running must not be undone afterwards)
+    stf = prog.fn1(S + 'start')
+    ctx.saw(stf)
+    scfg = stf.cfg
+    roles = dict(prog.enum('FIX8::Connection::Role')['e'])
+    def acceptor(v, w, lab):
+        if lab is None or not isinstance(lab[1], bool):
+            return True
+        c = scfg.cond_node(lab[0])
+        if c is None:
+            return True
+        a, pol = q.polar(c, lab[1])
+        t = a.strip(casts=True)
+        if t.k == 'BinaryOperator' and t.op in ('==', '!=') and any(x.is_call and x.callee is not None and x.callee.get('n') == 'get_role' for x in t.walk()):
+            val = t.children[1].strip(casts=True).value
+            if val is None:
+                val = t.children[0].strip(casts=True).value
+            if val in (roles.get('cn_acceptor'), roles.get('cn_initiator')):
+                is_acc = (val == roles['cn_acceptor']) == (t.op == '==')
+                return is_acc == pol
+        return True
+    cstart = [c for c in stf.calls() if c.callee_qp == 'FIX8::Connection::start']
+    inits = [c for c in stf.calls_to(S + 'atomic_init')]
+    ctx.need(len(cstart) == 1 and inits, 'Session::start: _connection->start() / atomic_init not found')
+    csv = scfg.vertex_of(cstart[0])
+    reach0 = scfg.reach_from(scfg.entry, edge_ok=acceptor) | {scfg.entry}
+    before = [c for c in inits if scfg.vertex_of(c) in reach0 and csv in scfg.reach_from(scfg.vertex_of(c), edge_ok=acceptor)]
+    after = [c for c in inits if scfg.vertex_of(c) in scfg.reach_from(csv, edge_ok=acceptor)]
+    ctx.check(bool(before) and not after, 'R23.3', S + 'start#acceptor-init-before-reader', cstart[0].loc,
+              'for an acceptor atomic_init(...) runs before _connection->start() and not again after it',
+              'for an acceptor the state and both sequence numbers are (re)initialised at %s, after the reader thread was started: a Logon the reader handles in between is '
+              'undone (state back to wait_for_logon, counters back to 1 after the answer was sent)' % (after[0].loc if after else 'no point before the start'))
+    # ---------------- R23.4 the session configuration reaches LoginParameters member by member: positional construction in SessionConfig agrees with the
+    # constructor's parameter -> member wiring (frozen pairing, read off the two sites)
+    PAIR = {'get_retry_interval': '_login_retry_interval', 'get_retry_count': '_login_retries', 'get_default_appl_ver_id': '_davi',
+            'get_connect_timeout': '_connect_timeout', 'get_reset_sequence_number_flag': '_reset_sequence_numbers',
+            'get_always_seqnum_assign': '_always_seqnum_assign', 'get_silent_disconnect': '_silent_disconnect', 'get_no_chksum_flag': '_no_chksum_flag',
+            'get_permissive_mode_flag': '_permissive_mode_flag', 'get_enforce_compids_flag': '_enforce_compids', 'get_tcp_recvbuf_sz': '_recv_buf_sz',
+            'get_tcp_sendbuf_sz': '_send_buf_sz', 'get_heartbeat_interval': '_hb_int', 'create_login_schedule': '_login_schedule', 'create_clients': '_clients'}
+    lpc = [g for g in prog.all_functions() if g.kind == 'ctor' and g.rec == 'FIX8::LoginParameters' and len(g.param_ids) >= 15]
+    ctx.need(len(lpc) == 1, 'LoginParameters value constructor not found')
+    lp = lpc[0]
+    ctx.saw(lp)
+    p2m = {}
+    for (m, e, it) in lp.inits:
+        if m is None:
+            continue
+        st_ = e.strip(casts=True)
+        refs = [x for x in e.walk() if x.k == 'DeclRefExpr' and x.declid in lp.param_ids]
+        if len(refs) == 1:
+            p2m[lp.param_ids.index(refs[0].declid)] = m['n']
+    scs = [g for g in prog.all_functions() if g.kind == 'ctor' and g.rec == 'FIX8::SessionConfig']
+    ctx.need(scs, 'SessionConfig constructor not found')
+    sc = scs[0]
+    ctx.saw(sc)
+    cons = [n for n in sc.all_nodes() if n.k in ('CXXConstructExpr', 'CXXTemporaryObjectExpr', 'InitListExpr') and 'LoginParameters' in (n.tstr or '') and
+            len(n.args if n.k != 'InitListExpr' else n.children) >= 15]
+    ctx.need(cons, 'SessionConfig: construction of LoginParameters not found')
+    con = cons[0]
+    cargs = con.args if con.k != 'InitListExpr' else con.children
+    wrong = []
+    n_pairs = 0
+    for i, a in enumerate(cargs):
+        getters = [x.callee.get('n') for x in a.walk() if x.is_call and x.callee is not None and x.callee.get('n') in PAIR]
+        if not getters:
+            continue
+        n_pairs += 1
+        want, got = PAIR[getters[0]], p2m.get(i)
+        if want != got:
+            wrong.append((getters[0], want, got, i))
+    ctx.need(n_pairs >= 12, 'SessionConfig: fewer than 12 configuration getters recognised in the LoginParameters construction (%d)' % n_pairs)
+    ctx.check(not wrong, 'R23.4', 'FIX8::SessionConfig::SessionConfig#login-parameters-wiring', con.loc,
+              'each configuration value is passed in the position of the constructor parameter that initialises its member (%d pairs)' % n_pairs,
+              'the value of %s() is passed as argument %d, which the LoginParameters constructor stores in %s (expected %s): a session configured from XML gets the wrong setting '
+              '(CompID enforcement silently off)' % (wrong[0][0], wrong[0][3] + 1, wrong[0][2], wrong[0][1]) if wrong else None)
+    from . import c20 as _c20
+    _c20.reset_by_value_rule(ctx, prog, 'R23.2')
+    ctx.floor('R23.3', 1)
+    ctx.floor('R23.4', 1)
     ctx.floor('R23.1', 1)
     ctx.floor('R23.2', 25)
 
